@@ -45,10 +45,14 @@ def _is_unordered(typ: Optional[str]) -> bool:
     return not any(elem.startswith(s) for s in STABLE_ELEMS)
 
 
+_ITER_LOCAL: dict[int, set[str]] = {}
+
+
 def _commutative_body(func: Func, loop: ast.AST, body: list[ast.stmt], target_names: set[str]) -> Optional[str]:
     """None if every statement of the loop body is insensitive to the iteration order, else the offending statement"""
     end = getattr(loop, "end_lineno", 0)
     later_reads = {n.id for n in ast.walk(func.node) if isinstance(n, ast.Name) and isinstance(n.ctx, ast.Load) and n.lineno > end}
+    fresh_here = {t.id for s in body if isinstance(s, (ast.Assign, ast.AnnAssign)) for t in (s.targets if isinstance(s, ast.Assign) else [s.target]) if isinstance(t, ast.Name)}
     for stmt in body:
         if isinstance(stmt, (ast.Pass, ast.Continue, ast.Break, ast.Raise, ast.Assert)):
             continue
@@ -65,6 +69,14 @@ def _commutative_body(func: Func, loop: ast.AST, body: list[ast.stmt], target_na
                     continue
                 if call.func.attr == "append" and isinstance(call.func.value, ast.Subscript) and {n.id for n in ast.walk(call.func.value.slice) if isinstance(n, ast.Name)} & target_names:
                     continue  # d[element].append(...)
+                if call.func.attr in ("append", "extend") and isinstance(call.func.value, ast.Name):
+                    acc = call.func.value.id
+                    if acc in fresh_here or acc in target_names or acc in _ITER_LOCAL.get(id(loop), set()):
+                        continue  # an accumulator that is created anew inside the iteration: its order is the order of an inner, ordered loop
+                    uses = [n for n in ast.walk(func.node) if isinstance(n, ast.Name) and n.id == acc and isinstance(n.ctx, ast.Load) and n is not call.func.value]
+                    par = parents(func)
+                    if uses and all(isinstance(par.get(id(u)), ast.Compare) and isinstance(par[id(u)].ops[0], (ast.In, ast.NotIn)) and par[id(u)].comparators[0] is u for u in uses):  # type: ignore[attr-defined]
+                        continue  # the list is only used in membership tests: its order is irrelevant
             return unparse(stmt)
         if isinstance(stmt, (ast.Assign, ast.AnnAssign, ast.AugAssign)):
             targets = stmt.targets if isinstance(stmt, ast.Assign) else [stmt.target]
@@ -89,6 +101,7 @@ def _commutative_body(func: Func, loop: ast.AST, body: list[ast.stmt], target_na
             continue
         if isinstance(stmt, (ast.For, ast.While)):
             inner_targets = target_names | ({n.id for n in ast.walk(stmt.target) if isinstance(n, ast.Name)} if isinstance(stmt, ast.For) else set())
+            _ITER_LOCAL.setdefault(id(loop), set()).update(fresh_here)
             bad = _commutative_body(func, loop, stmt.body + stmt.orelse, inner_targets)
             if bad:
                 return bad
